@@ -112,7 +112,10 @@ class TelApp(Application):
         """
         Parse imin argument.
         """
-        self.__imin = int(value)
+        try:
+            self.__imin = int(value)
+        except ValueError:
+            return False
         return self.__imin >= 0
 
     def __parse_imax(self, value):
@@ -120,7 +123,10 @@ class TelApp(Application):
         Parse imax argument.
         """
         if len(value) > 0:
-            self.__imax = int(value)
+            try:
+                self.__imax = int(value)
+            except ValueError:
+                return False
             return self.__imax >= 0
         self.__imax = None
         return True
